@@ -28,5 +28,6 @@ for cfg in sorted(facts.CONFIGS):
             if c.local:
                 callers.setdefault(c.name(), set()).add(f.path)
     out[cfg] = {f.path: [f.raw.get("sig", ""), str(f.raw.get("vis") or "")[:10], sorted(callers.get(f.path, ())), sorted({c.name() for c in f.calls() if not c.name().startswith("core::panicking")}), shape_of(f), {str(k): v for k, v in sorted(f.dbg.items())}] for f in P.fns.values() if f.kind != "Closure"}
+    out[cfg]["#adts"] = {a_["path"]: [[[f_["name"] for f_ in v_["fields"]], [f_["t"] for f_ in v_["fields"]]] for v_ in a_["variants"]] for a_ in d["adts"]}
     print(cfg, len(out[cfg]))
 json.dump(out, open(os.path.join(V, "cxsa", "anchors.json"), "w"), indent=0, sort_keys=True)
